@@ -70,6 +70,16 @@ func ruleL1(c *Ctx) *RuleResult {
 						}
 					}
 				}
+				if _, ok := in.(*ssa.RunDefers); ok && st.defMust != 0 {
+					// a deferred Unlock runs here: the lock it releases must still be held on this path
+					for _, cls := range li.classes {
+						for _, bit := range []lockset{bitW(cls), bitR(cls)} {
+							if st.defMust&bit != 0 && st.may&bit == 0 {
+								relUnheld = fmt.Sprintf("the deferred unlock of %s runs at %s on a path that has already released it (unlock of an unlocked mutex: a fatal error, or another goroutine's critical section is opened)", cls.Name, c.Pos(posOf(in)))
+							}
+						}
+					}
+				}
 				st = la.transfer(c, fn, in, st, nil, nil)
 			}
 		}
